@@ -41,6 +41,9 @@ def forms():
     F["aug"] = lambda k: ([I.assign(I.name("a"), I.site(k())), I.aug(I.name("a"), I.site(k()))], ["a"])
     F["aug_attr"] = lambda k: ([I.assign(I.name("o"), I.obj(k())), I.assign(I.attr("o", "x"), I.site(k())),
                                 I.aug(I.attr("o", "x"), I.site(k()))], [])
+    F["aug_obj"] = lambda k: ([I.assign(I.name("a"), {"e": "acc", "k": k()}), I.assign(I.name("b"), I.read("a")),
+                                   I.aug(I.name("a"), I.site(k())), I.expr(I.call(k(), I.read("a"), I.read("b")))], ["a"])
+    F["builtin_call"] = lambda k: ([I.assign(I.name("a"), I.site(k())), I.assign(I.name("b"), {"e": "bcall", "fn": "abs", "x": I.read("a")})], ["b"])
     F["ann_tag"] = lambda k: ([I.ann("a", "@T", I.site(k()))], ["a"])
     F["ann_int"] = lambda k: ([I.ann("a", "int", I.site(k()))], ["a"])
     F["ann_then_plain"] = lambda k: ([I.ann("a", "@T", I.site(k())), I.assign(I.name("a"), I.site(k()))], ["a"])
@@ -117,7 +120,8 @@ def family_f1(quick=True):
             shown = shows(names) if cname in ("top", "with", "finally") else []
             body = body + shown + [I.ret(I.site(k()))]
             pid += 1
-            progs.append(dict(I.program(f"p{pid}", ["x"], body, pid=pid), form=fname, ctx=cname, family="F1"))
+            progs.append(dict(I.program(f"p{pid}", ["x"], body, pid=pid), form=fname, ctx=cname, family="F1",
+                              shadow="abs" if fname == "builtin_call" else ""))
     for fname, mk in GEN_FORMS.items():
         for cname in (["top", "for"] if quick else ["top", "for", "try", "with"]):
             k = K()
